@@ -131,6 +131,8 @@ def _step(s, a, split_fn, sid, twin_every, counters):
         s.set_fixed(a['idx'], a['flag'])
     elif a['op'] == 'Reload':
         s.reload()
+    elif a['op'] == 'OptZero':
+        s.optimize_zero(a['fixFirst'])
     elif a['op'] == 'OptAbort':
         s.optimize_abort(a['maxIter'], a['fixFirst'], a['idx'])
     elif a['op'] == 'SetPose':
